@@ -301,6 +301,9 @@ def process(lines, driver_exe, workdir):
         if "harness_error" in c:
             out.append("R HARNESS-BUILD-FAILED " + c["harness_error"].replace("\n", " ")[-400:])
             continue
+        if c["idx"] in h.bad:
+            out.append("R T %s | V UNCOMPILABLE-EMITTED-SOURCE" % " ;; ".join(sorted(set(c["tt"].values()))))
+            continue
         tts = set(c["tt"].values())
         if len(tts) == 1:
             texts = tts.pop()
